@@ -13,7 +13,7 @@ def run(ctx, factor):
                 "defined before its user, after it, or not at all; also a macro whose own name lacks the @. Compiling on the "
                 "real code must either fail (error names the undefined macro) or yield a regex without any @; outcome and "
                 "regex compared with the model")
-    for _ in range(ctx.budget(600, 20000) * factor):
+    for _ in range(ctx.budget(1200, 20000) * factor):
         doc = gen_rules.rule(g, {"ops", "logic"}, depth=1)
         defs = [{"name": "@d1", "pattern": [g.pick(["mov", {"add": ["rax"]}])]},
                 {"name": "@d2", "pattern": g.pick(["rbx", "push"])}]
